@@ -78,7 +78,8 @@ REQUIRED_CLAUSES = ["construct.range", "construct.sign", "construct.congruent",
                     "op.range", "op.congruent", "op.operands-unchanged",
                     "op.zero-division", "mod.remainder", "to_positive",
                     "rad==deg*pi/180", "get_ra==deg/15",
-                    "invariant.Angle-range", "history.views==fresh-object"]
+                    "invariant.Angle-range", "history.views==fresh-object",
+                    "history.value==model"]
 REQUIRED_CONTRACTS = ["invariant:Angle(-360<deg<360)",
                       "suite:invariant:Angle(-360<deg<360)"]
 
@@ -647,18 +648,30 @@ def case_history(mon, seedval):
     rng = random.Random(seedval)
     a = Angle(rng.uniform(-359, 359))
     steps = []
+    model = a()          # the value the object should hold (None: unknown)
     for _ in range(8):
         mon.evals += 1
         op = rng.choice(("views", "views", "to_positive", "set", "set_ra",
                          "set_radians", "set_dms", "iadd", "imul", "neg",
-                         "set_tolerance"))
+                         "set_tolerance", "set_tiny", "to_positive"))
         try:
             if op == "views":
                 all_views(a)
             elif op == "to_positive":
                 a.to_positive()
+                if model is not None and model < 0.0:
+                    model = model + 360.0
+                    if model >= 360.0:
+                        model = 0.0
+            elif op == "set_tiny":
+                # smaller in size than a tolerance the object may carry
+                v = rng.choice((-1, 1)) * 10.0 ** rng.uniform(-12, -3)
+                a.set(v)
+                model = v
             elif op == "set":
-                a.set(rng.uniform(-1000, 1000))
+                v = rng.uniform(-1000, 1000)
+                a.set(v)
+                model = math.fmod(v, 360.0)
             elif op == "set_ra":
                 a.set_ra(rng.uniform(-30, 30))
             elif op == "set_radians":
@@ -674,6 +687,9 @@ def case_history(mon, seedval):
                 a = -a
             else:
                 a.set_tolerance(rng.choice((1e-10, 1e-6, 1e-3, 0.0)))
+            if op in ("set_ra", "set_radians", "set_dms", "iadd", "imul",
+                      "neg"):
+                model = None if op != "neg" or model is None else -model
             steps.append(op)
             got = all_views(a)
             fresh = Angle(a())
@@ -683,6 +699,13 @@ def case_history(mon, seedval):
                     {"seed": seedval, "steps": steps + [op],
                      "raised": repr(ex)})
             return
+        if model is not None:
+            mon.check("history.value==model", abs(a() - model) <= 1e-12
+                      * max(1.0, abs(model)),
+                      lambda: {"seed": seedval, "steps": list(steps),
+                               "value": a(), "expected": model})
+        else:
+            model = a()
         ok = got == want
         mon.check("history.views==fresh-object", ok,
                   lambda: {"seed": seedval, "steps": list(steps),
